@@ -144,7 +144,9 @@ func (g *Gen) execCall(v ssa.Value, c *ssa.CallCommon, in ssa.Instruction, st St
 	name := calleeName(c)
 	if g.stdModel(v, name, c, in, st, reach) {
 		if ct, key := g.contractOfCall(c); ct != nil && ct.GhostOnly {
+			g.ghostRes = v
 			g.applyContract(nil, ct, key, c, in, st, reach)
+			g.ghostRes = nil
 		}
 		return
 	}
@@ -330,6 +332,9 @@ func (g *Gen) resolveDesignator(d string, pkg *types.Package) []string {
 		return out
 	case d == "bytes":
 		return []string{"E.uint8"}
+	case d == "ghost.iteration":
+		// the ghost view of the live iterator (declared in package storage)
+		return []string{"ghost.rec_n", "ghost.rec_key", "ghost.rec_val", "ghost.rec_uk", "ghost.rec_rev", "ghost.it_pos", "ghost.it_lo", "ghost.it_hi"}
 	case strings.HasPrefix(d, "ghost."):
 		return []string{d}
 	case strings.HasPrefix(d, "E.") || strings.HasPrefix(d, "F.") || strings.HasPrefix(d, "G.") || strings.HasPrefix(d, "P.") || strings.HasPrefix(d, "M."):
@@ -453,6 +458,12 @@ func (g *Gen) applyContract(v ssa.Value, ct *Contract, key string, c *ssa.CallCo
 	// results
 	ts := g.havocResults(v, c, st)
 	res := sig.Results()
+	if v == nil && g.ghostRes != nil && res.Len() == 1 {
+		// ghost-only contract on top of a built-in model: the result is the model's value
+		if _, ok := g.vals[g.ghostRes]; ok {
+			ts = []T{g.val(g.ghostRes)}
+		}
+	}
 	for i, t := range ts {
 		vars[fmt.Sprintf("result%d", i)] = t
 		if i == 0 {
@@ -466,6 +477,8 @@ func (g *Gen) applyContract(v ssa.Value, ct *Contract, key string, c *ssa.CallCo
 		}
 		g.assumeTypeInv(t, st)
 	}
+	g.callLocked = map[string]T{}
+	defer func() { g.callLocked = nil }()
 	g.bindLets(ct, vars, st, pre)
 	for _, cl := range ct.Ensures {
 		env := g.envAt(st, pre, cpkg, vars)
